@@ -1,5 +1,615 @@
 //! Translator targets owned by property C16.
+//!
+//! `c16facts` → `Generated/C16Facts.lean`: the *lock-scope* facts of
+//! `src/value/list.rs` that decide C16 (DESIGN.md §4 C16):
+//!  * `List::get` and `ffi::list_get`: does the clone of the element happen
+//!    while the guard under which the pointer was looked up is still alive?
+//!  * every other `ErasedList` method: is it one critical section — a
+//!    temporary guard living for exactly the statement that calls the
+//!    `RawList` method, or a `let`-bound guard that lives to the end of the
+//!    function with every access going through it?
+//!  * the lock / read / unlock sequence of `concat` and `==`.
+//! Every function body is reduced to a *lock trace* (lock acquisitions with
+//! how the guard is bound, explicit `drop(guard)`s, calls of `RawList`
+//! methods with their receiver, element clones). A trace that is not one of
+//! the recognised shapes is an extraction failure, never a default.
+//! Statements under `#[cfg(feature = "verif-hooks")]` are skipped.
 #[allow(unused_imports)]
 use super::{Gen, Target};
+use crate::find;
+use quote::ToTokens;
+use std::path::Path;
+use syn::visit::Visit;
 
-pub const TARGETS: &[Target] = &[];
+pub const TARGETS: &[Target] = &[("c16facts", "C16Facts", c16facts as Gen)];
+
+fn norm<T: ToTokens>(t: &T) -> String {
+    t.to_token_stream().to_string().replace(' ', "")
+}
+
+fn is_hook_attr(attrs: &[syn::Attribute]) -> bool {
+    attrs.iter().any(|a| a.path().is_ident("cfg") && norm(&a.meta).contains("verif-hooks"))
+}
+
+#[derive(Clone, Debug, PartialEq)]
+enum Tok {
+    /// `<recv>.lock()`; `bound` = name of the `let` that holds the guard
+    /// (`None`: a temporary of the enclosing statement), `scope` = nesting of
+    /// blocks at the binding
+    Lock { recv: String, bound: Option<String>, scope: Vec<usize> },
+    /// `drop(<name>)`
+    Drop(String),
+    /// `<recv>.<method>(…)` for the RawList / ErasedList methods we track
+    Call { recv: String, method: String, scope: Vec<usize> },
+    /// the element is cloned: `.clone()` on the looked-up value, `clone_fn`, memcpy
+    CloneElem { scope: Vec<usize> },
+}
+
+const TRACKED: &[&str] = &[
+    "get", "push", "extend", "contains", "contains_owned", "index", "index_owned", "swap", "len",
+    "capacity", "is_empty", "concat",
+];
+
+struct Tracer {
+    toks: Vec<Tok>,
+    scope: Vec<usize>,
+    next_block: usize,
+    /// name of the `let` whose initialiser is being visited, if that
+    /// initialiser is exactly `<recv>.lock().unwrap()`
+    binding: Option<String>,
+}
+
+fn lock_unwrap_recv(e: &syn::Expr) -> Option<&syn::Expr> {
+    // <recv>.lock().unwrap()
+    if let syn::Expr::MethodCall(u) = e {
+        if u.method == "unwrap" {
+            if let syn::Expr::MethodCall(l) = &*u.receiver {
+                if l.method == "lock" {
+                    return Some(&l.receiver);
+                }
+            }
+        }
+    }
+    None
+}
+
+impl<'ast> Visit<'ast> for Tracer {
+    fn visit_block(&mut self, b: &'ast syn::Block) {
+        self.next_block += 1;
+        self.scope.push(self.next_block);
+        syn::visit::visit_block(self, b);
+        self.scope.pop();
+    }
+    fn visit_stmt(&mut self, s: &'ast syn::Stmt) {
+        match s {
+            syn::Stmt::Local(l) if is_hook_attr(&l.attrs) => {}
+            syn::Stmt::Expr(e, _) if expr_is_hook(e) => {}
+            _ => syn::visit::visit_stmt(self, s),
+        }
+    }
+    fn visit_local(&mut self, l: &'ast syn::Local) {
+        let name = match &l.pat {
+            syn::Pat::Ident(i) => Some(i.ident.to_string()),
+            _ => None,
+        };
+        if let (Some(n), Some(init)) = (name, &l.init) {
+            if lock_unwrap_recv(&init.expr).is_some() {
+                self.binding = Some(n);
+                syn::visit::visit_local(self, l);
+                self.binding = None;
+                return;
+            }
+        }
+        syn::visit::visit_local(self, l);
+    }
+    fn visit_expr_method_call(&mut self, m: &'ast syn::ExprMethodCall) {
+        // receiver and arguments first (source order of evaluation)
+        syn::visit::visit_expr_method_call(self, m);
+        let recv = norm(&m.receiver);
+        let method = m.method.to_string();
+        if method == "lock" {
+            self.toks.push(Tok::Lock {
+                recv,
+                bound: self.binding.clone(),
+                scope: self.scope.clone(),
+            });
+        } else if method == "clone" && !recv.contains("vtable") && !recv.ends_with(".0") && recv != "self" {
+            // `transformed.clone()` / `elem.clone()`: a clone of an element
+            self.toks.push(Tok::CloneElem { scope: self.scope.clone() });
+        } else if TRACKED.contains(&method.as_str()) {
+            self.toks.push(Tok::Call { recv, method, scope: self.scope.clone() });
+        }
+    }
+    fn visit_expr_call(&mut self, c: &'ast syn::ExprCall) {
+        syn::visit::visit_expr_call(self, c);
+        let f = norm(&c.func);
+        if f == "drop" && c.args.len() == 1 {
+            self.toks.push(Tok::Drop(norm(&c.args[0])));
+        } else if f == "(clone_fn)" || f == "clone_fn" || f.ends_with("copy_nonoverlapping") {
+            self.toks.push(Tok::CloneElem { scope: self.scope.clone() });
+        }
+    }
+}
+
+fn expr_is_hook(e: &syn::Expr) -> bool {
+    match e {
+        syn::Expr::Call(c) => is_hook_attr(&c.attrs),
+        syn::Expr::MethodCall(c) => is_hook_attr(&c.attrs),
+        syn::Expr::Macro(c) => is_hook_attr(&c.attrs),
+        syn::Expr::Block(c) => is_hook_attr(&c.attrs),
+        _ => false,
+    }
+}
+
+fn trace(block: &syn::Block) -> Vec<Tok> {
+    let mut t = Tracer { toks: vec![], scope: vec![], next_block: 0, binding: None };
+    t.visit_block(block);
+    t.toks
+}
+
+fn show(toks: &[Tok]) -> String {
+    toks.iter()
+        .map(|t| match t {
+            Tok::Lock { recv, bound: Some(b), .. } => format!("let {b}=lock({recv})"),
+            Tok::Lock { recv, bound: None, .. } => format!("tmp=lock({recv})"),
+            Tok::Drop(n) => format!("drop({n})"),
+            Tok::Call { recv, method, .. } => format!("{recv}.{method}"),
+            Tok::CloneElem { .. } => "clone-element".into(),
+        })
+        .collect::<Vec<_>>()
+        .join("; ")
+}
+
+/// Is the element cloned while the guard of the lookup is alive?
+/// `erased_get_is_temp`: `ErasedList::get` is the one-statement temporary-guard shape.
+fn clone_under_guard(name: &str, toks: &[Tok], handle: &[&str], erased_get_is_temp: bool) -> Result<bool, String> {
+    let bad = |why: &str| Err(format!("{name}: {why}; lock trace: {}", show(toks)));
+    let lookups: Vec<usize> = toks
+        .iter()
+        .enumerate()
+        .filter(|(_, t)| matches!(t, Tok::Call { method, .. } if method == "get"))
+        .map(|(i, _)| i)
+        .collect();
+    if lookups.len() != 1 {
+        return bad("expected exactly one element lookup (`.get(idx)`)");
+    }
+    let li = lookups[0];
+    let clones: Vec<(usize, &Vec<usize>)> = toks
+        .iter()
+        .enumerate()
+        .filter_map(|(i, t)| if let Tok::CloneElem { scope } = t { Some((i, scope)) } else { None })
+        .collect();
+    if clones.is_empty() {
+        return bad("no element clone found");
+    }
+    if clones.iter().any(|(i, _)| *i < li) {
+        return bad("an element clone precedes the lookup");
+    }
+    let Tok::Call { recv, .. } = &toks[li] else { unreachable!() };
+    if handle.contains(&recv.as_str()) {
+        // the lookup goes through ErasedList::get: its guard is gone when it returns
+        if !erased_get_is_temp {
+            return bad("lookup through ErasedList::get, whose shape is not the temporary-guard one");
+        }
+        return Ok(false);
+    }
+    // the lookup goes through a guard bound by `let`
+    let guard = toks.iter().enumerate().find_map(|(i, t)| match t {
+        Tok::Lock { bound: Some(b), scope, .. } if b == recv && i < li => Some((i, scope.clone())),
+        _ => None,
+    });
+    let Some((_, gscope)) = guard else {
+        return bad("the lookup's receiver is neither the list handle nor a `let`-bound guard");
+    };
+    for (ci, cscope) in &clones {
+        // the guard's block must enclose the clone …
+        if !(cscope.len() >= gscope.len() && cscope[..gscope.len()] == gscope[..]) {
+            return Ok(false);
+        }
+        // … and the guard must not be dropped explicitly before it
+        if toks[li..*ci].iter().any(|t| matches!(t, Tok::Drop(n) if n == recv)) {
+            return Ok(false);
+        }
+    }
+    // no second lock between lookup and clone (that would be a different critical section
+    // only if the first guard were gone, which we just excluded; a nested lock of the same
+    // mutex would self-deadlock — not a recognised shape)
+    if toks[li..clones[0].0].iter().any(|t| matches!(t, Tok::Lock { .. })) {
+        return bad("a lock is taken between the lookup and the clone while the lookup's guard is alive");
+    }
+    Ok(true)
+}
+
+#[derive(PartialEq, Clone, Copy)]
+enum Shape {
+    Temp,
+    Let,
+}
+
+/// one critical section on `self.0`, every tracked call through the guard
+fn single_section(name: &str, toks: &[Tok], method: &str) -> Result<Shape, String> {
+    let bad = |why: &str| Err(format!("{name}: {why}; lock trace: {}", show(toks)));
+    let locks: Vec<&Tok> = toks.iter().filter(|t| matches!(t, Tok::Lock { .. })).collect();
+    if locks.len() != 1 {
+        return bad("expected exactly one lock acquisition");
+    }
+    let Tok::Lock { recv, bound, .. } = locks[0] else { unreachable!() };
+    if recv != "self.0" {
+        return bad("the lock taken is not self.0");
+    }
+    if !matches!(toks.first(), Some(Tok::Lock { .. })) {
+        return bad("something is accessed before the lock is taken");
+    }
+    // an explicit drop of the guard is fine once the RawList call is done
+    let call_at = toks.iter().position(|t| matches!(t, Tok::Call { .. }));
+    for (i, t) in toks.iter().enumerate() {
+        if let Tok::Drop(n) = t {
+            let is_guard = matches!(bound, Some(g) if g == n);
+            if is_guard && call_at.map(|c| i < c).unwrap_or(true) {
+                return bad("the guard is dropped before the RawList call");
+            }
+        }
+    }
+    let calls: Vec<(&String, &String)> = toks
+        .iter()
+        .filter_map(|t| if let Tok::Call { recv, method, .. } = t { Some((recv, method)) } else { None })
+        .collect();
+    if calls.len() != 1 || calls[0].1 != method {
+        return bad(&format!("expected exactly one call of RawList::{method}"));
+    }
+    match bound {
+        None => {
+            if calls[0].0 != "self.0.lock().unwrap()" {
+                return bad("the RawList call does not go through the temporary guard");
+            }
+            Ok(Shape::Temp)
+        }
+        Some(g) => {
+            if calls[0].0 != g {
+                return bad("the RawList call does not go through the let-bound guard");
+            }
+            Ok(Shape::Let)
+        }
+    }
+}
+
+fn c16facts(repo: &Path) -> Result<String, String> {
+    let f = find::parse(repo, "src/value/list.rs")?;
+    let mut notes: Vec<String> = vec![];
+
+    // ---- ErasedList's one-section methods
+    let mut shapes = vec![];
+    let mut erased_get_temp = false;
+    for (m, raw, lean) in [
+        ("push", "push", "push"),
+        ("get", "get", "get"),
+        ("contains", "contains", "contains"),
+        ("contains_owned", "contains", "containsOwned"),
+        ("index", "index", "index"),
+        ("index_owned", "index", "indexOwned"),
+        ("swap", "swap", "swap"),
+        ("len", "len", "len"),
+        ("capacity", "capacity", "capacity"),
+        ("is_empty", "is_empty", "isEmpty"),
+    ] {
+        let b = match find::func(&f, m, Some("ErasedList")) {
+            Ok(b) => b,
+            // the pointer-returning `ErasedList::get` may be absent (nothing
+            // hands an element pointer out of the lock then)
+            Err(e) if m == "get" && e.contains("not found") => {
+                notes.push("ErasedList::get: absent (no method returns an element pointer)".into());
+                continue;
+            }
+            Err(e) => return Err(e),
+        };
+        let t = trace(&b.block);
+        let s = single_section(&format!("ErasedList::{m}"), &t, raw)?;
+        if m == "get" {
+            erased_get_temp = s == Shape::Temp;
+            if !erased_get_temp {
+                return Err(format!("ErasedList::get returns a pointer but holds a let-bound guard: {}", show(&t)));
+            }
+        }
+        notes.push(format!("ErasedList::{m}: {}", show(&t)));
+        shapes.push(format!("(.{lean}, .{})", if s == Shape::Temp { "tempGuard" } else { "letGuard" }));
+    }
+
+    // ---- the two `get`s that clone the element
+    let g = find::func(&f, "get", Some("List"))?;
+    let gt = trace(&g.block);
+    let get_under = clone_under_guard("List::get", &gt, &["self.inner"], erased_get_temp)?;
+    notes.push(format!("List::get: {} ↦ clone under guard = {get_under}", show(&gt)));
+    let lg = find::func(&f, "list_get", None)?;
+    let lt = trace(&lg.block);
+    let ffi_under = clone_under_guard("ffi::list_get", &lt, &["this"], erased_get_temp)?;
+    notes.push(format!("ffi::list_get: {} ↦ clone under guard = {ffi_under}", show(&lt)));
+
+    // ---- concat and ==: lock / read / unlock sequence
+    let who = |recv: &str, names: &[(&str, &str)]| -> Option<String> {
+        names.iter().find(|(r, _)| *r == recv).map(|(_, w)| w.to_string())
+    };
+    let c = find::func(&f, "concat", Some("ErasedList"))?;
+    let ct = trace(&c.block);
+    struct AllIfs(Vec<syn::ExprIf>);
+    impl<'ast> Visit<'ast> for AllIfs {
+        fn visit_expr_if(&mut self, i: &'ast syn::ExprIf) {
+            self.0.push(i.clone());
+            syn::visit::visit_expr_if(self, i);
+        }
+    }
+    let locks_of = |toks: &[Tok]| -> Vec<String> {
+        toks.iter().filter_map(|t| if let Tok::Lock { recv, .. } = t { Some(recv.clone()) } else { None }).collect()
+    };
+    let mut cifs = AllIfs(vec![]);
+    cifs.visit_block(&c.block);
+    let same_if = cifs.0.iter().find(|i| norm(&i.cond) == "Arc::ptr_eq(&self.0,&other.0)");
+    /// which guard each `extend` reads from: the argument of the call
+    struct ExtendArgs(Vec<String>);
+    impl<'ast> Visit<'ast> for ExtendArgs {
+        fn visit_expr_method_call(&mut self, m: &'ast syn::ExprMethodCall) {
+            if m.method == "extend" && m.args.len() == 1 {
+                self.0.push(norm(&m.args[0]).trim_start_matches('&').to_string());
+            }
+            syn::visit::visit_expr_method_call(self, m);
+        }
+    }
+    let mut ea = ExtendArgs(vec![]);
+    ea.visit_block(&c.block);
+    let mut concat_trace: Vec<String> = vec![];
+    let concat_atomic;
+    if let Some(si) = same_if {
+        // both operands held: `if ptr_eq { lock self } else if self < other { lock self; lock other }
+        // else { lock other; lock self }`, then lock new, extend(&a), extend(b or a), nothing dropped early
+        let bad = |why: &str| format!("ErasedList::concat (both operands held): {why}; lock trace: {}", show(&ct));
+        let then_l = locks_of(&trace(&si.then_branch));
+        let (mid_l, else_l) = match &si.else_branch {
+            Some((_, e)) => match &**e {
+                syn::Expr::If(i2) if norm(&i2.cond) == "Arc::as_ptr(&self.0)<Arc::as_ptr(&other.0)" => {
+                    let e2 = match &i2.else_branch {
+                        Some((_, e)) => match &**e {
+                            syn::Expr::Block(b) => locks_of(&trace(&b.block)),
+                            _ => vec![],
+                        },
+                        None => vec![],
+                    };
+                    (locks_of(&trace(&i2.then_branch)), e2)
+                }
+                _ => return Err(bad("the else branch is not the address comparison")),
+            },
+            None => return Err(bad("no else branch")),
+        };
+        if then_l != ["self.0"] || mid_l != ["self.0", "other.0"] || else_l != ["other.0", "self.0"] {
+            return Err(bad(&format!("branches lock {then_l:?} / {mid_l:?} / {else_l:?}")));
+        }
+        let rest: Vec<&Tok> = ct.iter().skip_while(|t| !matches!(t, Tok::Lock { recv, .. } if recv == "new.0")).collect();
+        let all = locks_of(&ct);
+        if all.len() != 6 || all[5] != "new.0" {
+            return Err(bad("expected the five operand locks of the three branches, then lock(new.0)"));
+        }
+        let shape_ok = matches!(rest.as_slice(),
+            [Tok::Lock { bound: Some(g), .. }, Tok::Call { recv: r1, method: m1, .. }, Tok::Call { recv: r2, method: m2, .. }, tail @ ..]
+            if r1 == g && r2 == g && m1 == "extend" && m2 == "extend"
+               && tail.iter().all(|t| matches!(t, Tok::Drop(n) if n == g)));
+        if !shape_ok {
+            return Err(bad("after lock(new.0): expected two extends of the new list and at most its drop"));
+        }
+        if ct.iter().any(|t| matches!(t, Tok::Drop(n) if n == "a" || n == "b")) {
+            return Err(bad("an operand guard is dropped explicitly"));
+        }
+        if ea.0 != ["a", "b.as_deref().unwrap_or(&a)"] {
+            return Err(bad(&format!("the extends read {:?}", ea.0)));
+        }
+        concat_atomic = true;
+        concat_trace = [".lock .self", ".lock .other", ".lock .new", ".read .self", ".read .other", ".unlock .new"]
+            .iter()
+            .map(|s| s.to_string())
+            .collect();
+    } else {
+        concat_atomic = false;
+        let mut guard_of: Vec<(String, String)> = vec![]; // guard name -> who
+        for t in &ct {
+            match t {
+                Tok::Lock { recv, bound: Some(b), .. } => {
+                    let w = who(recv, &[("self.0", "self"), ("other.0", "other"), ("new.0", "new")])
+                        .ok_or(format!("ErasedList::concat locks `{recv}`: {}", show(&ct)))?;
+                    guard_of.push((b.clone(), w.clone()));
+                    concat_trace.push(format!(".lock .{w}"));
+                }
+                Tok::Drop(n) => {
+                    let w = guard_of
+                        .iter()
+                        .find(|(g, _)| g == n)
+                        .map(|(_, w)| w.clone())
+                        .ok_or(format!("ErasedList::concat drops `{n}`, not a guard: {}", show(&ct)))?;
+                    concat_trace.push(format!(".unlock .{w}"));
+                }
+                Tok::Call { recv, method, .. } if method == "extend" => {
+                    let tgt = guard_of.iter().find(|(g, _)| g == recv).map(|(_, w)| w.as_str());
+                    if tgt != Some("new") {
+                        return Err(format!("ErasedList::concat extends `{recv}`, not the new list: {}", show(&ct)));
+                    }
+                    concat_trace.push(".extend".to_string());
+                }
+                other => {
+                    return Err(format!("ErasedList::concat: unexpected `{}` in {}", show(std::slice::from_ref(other)), show(&ct)));
+                }
+            }
+        }
+        let mut ea_it = ea.0.iter();
+        for t in concat_trace.iter_mut() {
+            if t == ".extend" {
+                let a = ea_it.next().ok_or("concat: extend without argument")?;
+                let w = guard_of
+                    .iter()
+                    .find(|(g, _)| g == a)
+                    .map(|(_, w)| w.clone())
+                    .ok_or(format!("ErasedList::concat extends from `{a}`, not a guard"))?;
+                *t = format!(".read .{w}");
+            }
+        }
+    }
+    notes.push(format!("ErasedList::concat: both operands held = {concat_atomic}; {}", show(&ct)));
+
+    let e = find::func(&f, "eq", Some("PartialEq for ErasedList"))?;
+    let et = trace(&e.block);
+    // address-ordered locking: `if Arc::as_ptr(&self.0) < Arc::as_ptr(&other.0) { lock self; lock other }
+    // else { lock other; lock self }`
+    struct Ifs(Vec<syn::ExprIf>);
+    impl<'ast> Visit<'ast> for Ifs {
+        fn visit_expr_if(&mut self, i: &'ast syn::ExprIf) {
+            self.0.push(i.clone());
+            syn::visit::visit_expr_if(self, i);
+        }
+    }
+    let mut ifs = Ifs(vec![]);
+    ifs.visit_block(&e.block);
+    let lock_recvs = |toks: &[Tok]| -> Vec<String> {
+        toks.iter().filter_map(|t| if let Tok::Lock { recv, .. } = t { Some(recv.clone()) } else { None }).collect()
+    };
+    let ordered_if: Vec<&syn::ExprIf> = ifs
+        .0
+        .iter()
+        .filter(|i| {
+            let c = norm(&i.cond);
+            c == "Arc::as_ptr(&self.0)<Arc::as_ptr(&other.0)" || c == "Arc::as_ptr(&self.0)<=Arc::as_ptr(&other.0)"
+        })
+        .collect();
+    let all_locks = lock_recvs(&et);
+    let eq_ordered = match ordered_if.as_slice() {
+        [] => {
+            if all_locks != ["self.0", "other.0"] {
+                return Err(format!("ErasedList::eq: expected lock(self.0) then lock(other.0): {}", show(&et)));
+            }
+            false
+        }
+        [i] => {
+            let then_l = lock_recvs(&trace(&i.then_branch));
+            let else_l = match &i.else_branch {
+                Some((_, e)) => match &**e {
+                    syn::Expr::Block(b) => lock_recvs(&trace(&b.block)),
+                    _ => vec![],
+                },
+                None => vec![],
+            };
+            if then_l != ["self.0", "other.0"] || else_l != ["other.0", "self.0"] || all_locks.len() != 4 {
+                return Err(format!(
+                    "ErasedList::eq: address-ordered locking expected `self, other` / `other, self` in the two branches, found {then_l:?} / {else_l:?}: {}",
+                    show(&et)
+                ));
+            }
+            true
+        }
+        _ => return Err(format!("ErasedList::eq: more than one address comparison: {}", show(&et))),
+    };
+    let mut eq_trace = vec![];
+    let mut eq_guards: Vec<(String, String)> = vec![];
+    let mut locks_seen = 0;
+    for t in &et {
+        match t {
+            Tok::Lock { recv, bound: Some(b), .. } => {
+                let w = who(recv, &[("self.0", "self"), ("other.0", "other")])
+                    .ok_or(format!("ErasedList::eq locks `{recv}`: {}", show(&et)))?;
+                eq_guards.push((b.clone(), w.clone()));
+                locks_seen += 1;
+                // the else branch of the ordered form repeats the two locks in the other order
+                if locks_seen <= 2 {
+                    eq_trace.push(format!(".lock .{w}"));
+                }
+            }
+            Tok::Call { recv, method, .. } if method == "get" || method == "len" => {
+                let w = eq_guards
+                    .iter()
+                    .rev()
+                    .find(|(g, _)| g == recv)
+                    .map(|(_, w)| w.clone())
+                    .ok_or(format!("ErasedList::eq reads through `{recv}`, not a guard: {}", show(&et)))?;
+                let tok = format!(".read .{w}");
+                if eq_trace.last() != Some(&tok) && !eq_trace[eq_trace.len().saturating_sub(2)..].contains(&tok) {
+                    eq_trace.push(tok);
+                }
+            }
+            other => {
+                return Err(format!("ErasedList::eq: unexpected `{}` in {}", show(std::slice::from_ref(other)), show(&et)));
+            }
+        }
+    }
+    // `Arc::ptr_eq` short-cut must come first (otherwise `l == l` locks twice)
+    let first = e.block.stmts.first().map(|s| norm(s)).unwrap_or_default();
+    let ptr_eq_first = first.starts_with("ifArc::ptr_eq(&self.0,&other.0){returntrue;}");
+    notes.push(format!("ErasedList::eq: ptr_eq first = {ptr_eq_first}; address-ordered = {eq_ordered}; {}", show(&et)));
+
+    // ---- the typed `List<T>::eq` (Rust-side `==`): same lock discipline as ErasedList::eq
+    let te = find::func(&f, "eq", Some("PartialEq for List"))?;
+    let tt = trace(&te.block);
+    let tl: Vec<String> =
+        tt.iter().filter_map(|t| if let Tok::Lock { recv, .. } = t { Some(recv.clone()) } else { None }).collect();
+    let mut tifs = Ifs(vec![]);
+    tifs.visit_block(&te.block);
+    let t_ordered_if: Vec<&syn::ExprIf> = tifs
+        .0
+        .iter()
+        .filter(|i| norm(&i.cond) == "Arc::as_ptr(&self.inner.0)<Arc::as_ptr(&other.inner.0)")
+        .collect();
+    let typed_ordered = match t_ordered_if.as_slice() {
+        [i] => {
+            let then_l = lock_recvs(&trace(&i.then_branch));
+            let else_l = match &i.else_branch {
+                Some((_, e)) => match &**e {
+                    syn::Expr::Block(b) => lock_recvs(&trace(&b.block)),
+                    _ => vec![],
+                },
+                None => vec![],
+            };
+            if then_l != ["self.inner.0", "other.inner.0"] || else_l != ["other.inner.0", "self.inner.0"] || tl.len() != 4 {
+                return Err(format!(
+                    "List<T>::eq: address-ordered locking expected `self, other` / `other, self` in the two branches, found {then_l:?} / {else_l:?}: {}",
+                    show(&tt)
+                ));
+            }
+            true
+        }
+        [] => {
+            // argument order (or, on the pinned tree, `self` twice): not the ordered form
+            if tl != ["self.inner.0", "other.inner.0"] && tl != ["self.inner.0", "self.inner.0"] {
+                return Err(format!("List<T>::eq: unrecognised lock sequence {tl:?}: {}", show(&tt)));
+            }
+            false
+        }
+        _ => return Err(format!("List<T>::eq: more than one address comparison: {}", show(&tt))),
+    };
+    if tt.iter().any(|t| matches!(t, Tok::Drop(_))) {
+        return Err(format!("List<T>::eq drops a guard explicitly: {}", show(&tt)));
+    }
+    let tfirst = te.block.stmts.first().map(|s| norm(s)).unwrap_or_default();
+    let typed_ptr_eq_first = tfirst.starts_with("ifArc::ptr_eq(&self.inner.0,&other.inner.0){returntrue;}");
+    notes.push(format!(
+        "List<T>::eq: ptr_eq first = {typed_ptr_eq_first}; address-ordered = {typed_ordered}; {}",
+        show(&tt)
+    ));
+
+    let b = |x: bool| if x { "true" } else { "false" };
+    let mut out = String::new();
+    out.push_str("/- GENERATED by /verif/extract (target `c16facts`) from src/value/list.rs — do not edit.\n");
+    for n in &notes {
+        out.push_str(&format!("   {n}\n"));
+    }
+    out.push_str("-/\nimport RotoV.Model.ListConc\nnamespace RotoV.Gen.C16\nopen RotoV.ListConc\n\n");
+    out.push_str(&format!(
+        "def facts : Facts :=\n  {{ getUnderGuard := {}\n    ffiGetUnderGuard := {}\n    eqOrdered := {}\n    concatAtomic := {} }}\n\n",
+        b(get_under),
+        b(ffi_under),
+        b(eq_ordered),
+        b(concat_atomic)
+    ));
+    out.push_str(&format!("def methodShapes : List (Method × Shape) :=\n  [{}]\n\n", shapes.join(", ")));
+    out.push_str(&format!("def concatTrace : List LockTok :=\n  [{}]\n\n", concat_trace.join(", ")));
+    out.push_str(&format!("def eqPtrEqFirst : Bool := {}\n\n", b(ptr_eq_first)));
+    out.push_str(&format!(
+        "/-- the typed `List<T>::eq`: `Arc::ptr_eq` short-cut first, then both mutexes in address order -/\ndef typedEqPtrEqFirst : Bool := {}\ndef typedEqOrdered : Bool := {}\n\n",
+        b(typed_ptr_eq_first),
+        b(typed_ordered)
+    ));
+    out.push_str(&format!("def eqTrace : List LockTok :=\n  [{}]\n", eq_trace.join(", ")));
+    out.push_str("\nend RotoV.Gen.C16\n");
+    Ok(out)
+}
